@@ -119,6 +119,15 @@ func runC11(c *fw.Ctx) {
 		ug := &gen.UpdateGen{R: r, Pool: pool, Mismatch: 2}
 		u := ug.Gen(d)
 		upsert := idx%8 == 7
+		if idx%16 == 5 {
+			// directed: two (or three) identified positional operators whose
+			// identifiers are prefixes of one another, each with its own array
+			// filter (comparisons, negations, conditions a missing field
+			// satisfies), and sometimes a filter for an unused identifier or a
+			// missing one (both must be rejected)
+			d, u = c11ArrayFilterCase(r)
+			upsert = false
+		}
 		describe := func() interface{} {
 			return map[string]interface{}{"doc": gen.JSON(d), "update": gen.JSON(u.Doc), "arrayFilters": jsonList(u.ArrayFilters), "upsert": upsert}
 		}
@@ -127,6 +136,66 @@ func runC11(c *fw.Ctx) {
 			c11Case(c, coll, ctx, d, u, upsert, idx)
 		})
 	}
+}
+
+func c11ArrayFilterCase(r *fw.Rand) (bson.D, gen.Update) {
+	num := func() interface{} {
+		return fw.Pick(r, []interface{}{int32(1), int32(2), int32(3), int64(2), 2.0, int32(5)})
+	}
+	arr := func() bson.A {
+		a := bson.A{}
+		for k := r.Range(1, 4); k > 0; k-- {
+			a = append(a, num())
+		}
+		return a
+	}
+	sub := func() bson.A {
+		a := bson.A{}
+		for k := r.Range(1, 3); k > 0; k-- {
+			a = append(a, bson.D{{Key: "k", Value: num()}, {Key: "v", Value: num()}})
+		}
+		return a
+	}
+	d := bson.D{{Key: "_id", Value: int32(1)}, {Key: "p", Value: arr()}, {Key: "q", Value: arr()}, {Key: "s", Value: sub()}}
+	ids := fw.Pick(r, [][]string{{"e", "ex", "exy"}, {"i", "it", "ite"}, {"ab", "a", "abc"}, {"x", "y", "xy"}})
+	if r.Bool() {
+		ids[0], ids[1] = ids[1], ids[0]
+	}
+	cond := func() interface{} {
+		switch r.Intn(7) {
+		case 0:
+			return bson.D{{Key: "$ne", Value: num()}}
+		case 1:
+			return bson.D{{Key: "$gte", Value: num()}}
+		case 2:
+			return bson.D{{Key: "$lt", Value: num()}}
+		case 3:
+			return bson.D{{Key: "$nin", Value: bson.A{num(), num()}}}
+		case 4:
+			return bson.D{{Key: "$not", Value: bson.D{{Key: "$gt", Value: num()}}}}
+		case 5:
+			return bson.D{{Key: "$in", Value: bson.A{num(), num()}}}
+		default:
+			return num()
+		}
+	}
+	set := bson.D{{Key: "p.$[" + ids[0] + "]", Value: int32(100)}, {Key: "q.$[" + ids[1] + "]", Value: int32(200)}}
+	filters := []bson.D{{{Key: ids[0], Value: cond()}}, {{Key: ids[1], Value: cond()}}}
+	if r.Bool() {
+		set = append(set, bson.E{Key: "s.$[" + ids[2] + "].v", Value: int32(300)})
+		filters = append(filters, bson.D{{Key: ids[2] + ".k", Value: cond()}})
+	}
+	switch r.Intn(8) {
+	case 0:
+		filters = filters[1:] // identifier without a filter
+	case 1:
+		filters = append(filters, bson.D{{Key: ids[0] + "z", Value: cond()}}) // unused filter
+	}
+	if r.Bool() {
+		filters[0], filters[len(filters)-1] = filters[len(filters)-1], filters[0]
+	}
+	op := fw.Pick(r, []string{"$set", "$inc", "$mul", "$max"})
+	return d, gen.Update{Doc: bson.D{{Key: op, Value: set}}, ArrayFilters: filters}
 }
 
 func c11Case(c *fw.Ctx, coll lungo.ICollection, ctx context.Context, d bson.D, u gen.Update, upsert bool, idx int) {
